@@ -216,18 +216,26 @@ def cases(seed, scale):
             except Exception:
                 pass
         add(f"timeseries.Cross/JointRecurrencePlot Tx={Tx} Ty={Ty}", crp)
-    for T in (1, 2, 3, 6):
+    for T in (1, 2, 3, 6, 40):
         def vg(T=T):
             x = g.standard_normal(T)
+            tt = np.cumsum(1 + g.random(T + 2))
             for kw in ({}, {"horizontal": True},
                        {"missing_values": True},
-                       {"timings": np.cumsum(1 + g.random(T))}):
+                       {"timings": tt[:T]},
+                       # timings shorter / longer than the series: an index
+                       # error, or a clean result, never a read outside
+                       {"timings": tt[:max(0, T - 1)]},
+                       {"timings": tt[:T // 2]},
+                       {"timings": tt[:T // 2], "horizontal": True},
+                       {"timings": tt[:T // 2], "missing_values": True},
+                       {"timings": tt}):
                 try:
                     o = VisibilityGraph(x, silence_level=3, **kw)
                     o.visibility_relations()
                     o.retarded_local_clustering()
                     o.advanced_local_clustering()
-                except (ValueError, IndexError):
+                except (ValueError, IndexError, ZeroDivisionError):
                     pass
         add(f"timeseries.VisibilityGraph T={T}", vg)
     for N, T in itertools.product((1, 2, 4), (2, 3, 8)):
